@@ -639,10 +639,26 @@ pub fn reference(name: &str, a: &[RVal]) -> RVal {
       }
       match all_nums(&items) {
         Some(ns) => {
-          let f: Vec<f64> = ns.iter().map(|r| r.n as f64 / r.d as f64).collect();
-          let mean = f.iter().sum::<f64>() / f.len() as f64;
-          let var = f.iter().map(|x| (x - mean) * (x - mean)).sum::<f64>() / (f.len() as f64 - 1.0);
-          Approx(var.sqrt())
+          // the deviations from the mean in exact rational arithmetic (binary floating point loses items of 18 digits
+          // that differ in the last one); only the final square root is approximate
+          let exact = || -> Option<Rat> {
+            let mut sum = Rat::int(0);
+            for r in &ns {
+              sum = sum.add(*r)?;
+            }
+            let mean = sum.div(Rat::int(ns.len() as i128))?;
+            let mut squares = Rat::int(0);
+            for r in &ns {
+              let d = r.sub(mean)?;
+              squares = squares.add(d.mul(d)?)?;
+            }
+            squares.div(Rat::int(ns.len() as i128 - 1))
+          };
+          match exact() {
+            Some(var) if var.n == 0 => Num(Rat::int(0)),
+            Some(var) => Approx((var.n as f64 / var.d as f64).sqrt()),
+            None => Unspec,
+          }
         }
         None => Null,
       }
@@ -1046,6 +1062,15 @@ fn number_lists(thorough: bool) -> Vec<RVal> {
       out.push(l(v));
     }
   }
+  // equal items with many digits, and items that share a large offset (sums of squares lose what the deviations keep)
+  out.push(l(vec![q(1, 3), q(1, 3), q(1, 3)]));
+  out.push(l(vec![q(2, 3), q(2, 3)]));
+  out.push(l(vec![q(100, 3), q(100, 3), q(100, 3), q(100, 3)]));
+  out.push(l(vec![q(1, 7), q(1, 7)]));
+  out.push(l(vec![n(100000000000000001), n(100000000000000002), n(100000000000000003)]));
+  out.push(l(vec![n(1000000000000000001), n(1000000000000000003)]));
+  out.push(l(vec![q(2000000000000000001, 2), q(2000000000000000003, 2)]));
+  out.push(l(vec![n(1000000007), n(1000000008), n(1000000010)]));
   out.push(l(vec![n(6), n(3), n(9), n(6), n(6)]));
   out.push(l(vec![n(6), n(1), n(9), n(6), n(1)]));
   out.push(l(vec![n(2), n(4), n(4), n(4), n(5), n(5), n(7), n(9)]));
